@@ -1,7 +1,7 @@
 (* C06 - Supervisor: state map converges to true runnable states; subscribers see it.
    Statements only. *)
 From Coq Require Import List Bool Arith.
-From GS Require Import LTS Supervisor SupAccept SupProps SupInv SupGate SupState SupFinal SupSubs.
+From GS Require Import LTS Supervisor SupAccept SupProps SupInv SupGate SupState SupFinal SupSubs SupEntry.
 Import ListNotations.
 
 (* While the supervisor is running (its context not cancelled), in EVERY quiescent state
@@ -149,3 +149,28 @@ Example C06_ex_late_entry :
     find_sub 7 (subs s) = Some b /\ sub_buf b = [[Some 0; Some 0]] /\
     last_sent s 7 = Some [Some 0; Some 0] /\ smap s = [Some 0; Some 0].
 Proof. exact subs_sched_delivers. Qed.
+
+(* The same clause as a property of observable traces (monitor c06_sub_entry, evaluated on the
+   implementation's traces): a subscriber that had already taken a snapshot and had not been
+   cancelled when a Stateable runnable j was started has, by the time it sees its channel closed,
+   taken a snapshot with an entry for j - unless it took ten or more snapshots after the start (its
+   channel may have been full when startRunnable broadcast). *)
+Theorem C06_sub_entry : forall c ls s,
+  run (step c) (init c) ls = Some s -> c06_sub_entry c (obs_trace obs ls) = true.
+Proof. exact sup_c06_sub_entry. Qed.
+
+Print Assumptions C06_sub_entry.
+
+(* non-vacuity: the monitor rejects what the supervisor did before the repair (the subscriber
+   drains its channel and sees it closed without ever having been told about runnable 1) and
+   accepts the repaired behaviour *)
+Example C06_ex_sub_entry_rejects :
+  c06_sub_entry subs_cfg
+    [ERunCall 0; ESubscribe 7; ESubRecv 7 [Some 0; None]; EPoll 0 true; ERunCall 1; EPoll 1 true; EQuiet;
+     ESubCancel 7; ESubClosed 7] = false.
+Proof. vm_compute. reflexivity. Qed.
+Example C06_ex_sub_entry_accepts :
+  c06_sub_entry subs_cfg
+    [ERunCall 0; ESubscribe 7; ESubRecv 7 [Some 0; None]; EPoll 0 true; ERunCall 1; EPoll 1 true; EQuiet;
+     ESubCancel 7; ESubRecv 7 [Some 0; Some 0]; ESubClosed 7] = true.
+Proof. vm_compute. reflexivity. Qed.
